@@ -25,14 +25,11 @@ func (e EmptySet) IsTrue() bool {
 }
 
 func (e EmptySet) Less(v Value) bool {
-	if e == v {
-		return false
+	// Like every other value: ordered by Kind first. (The empty set is the only value of its kind.)
+	if e.Kind() != v.Kind() {
+		return e.Kind() < v.Kind()
 	}
-	switch v.(type) {
-	case Number, Tuple:
-		return false
-	}
-	return true
+	return false
 }
 
 func (e EmptySet) Negate() Value {
